@@ -12,7 +12,7 @@
 (* Offsets are 0-based (as in the format documents), sequences 1-based.    *)
 (* Text (HEX / S-record lines, names) travels as sequences of code points. *)
 (***************************************************************************)
-EXTENDS Integers, Sequences
+EXTENDS Integers, Sequences, TLC
 
 Byte == 0..255
 IsBytes(s) == \A i \in DOMAIN s : s[i] \in Byte
@@ -111,6 +111,50 @@ HexChr(v) == IF v < 10 THEN 48 + v ELSE 55 + v                      \* upper cas
 HexOfBytes(s) == Tup([i \in 1..2 * Len(s) |-> IF i % 2 = 1 THEN HexChr(s[(i + 1) \div 2] \div 16)
                                                            ELSE HexChr(s[i \div 2] % 16)])
 BytesOfHex(t) == Tup([i \in 1..Len(t) \div 2 |-> 16 * HexVal(t[2 * i - 1]) + HexVal(t[2 * i])])   \* requires IsHex(t)
+
+
+(* ---- structures: layout tables ---------------------------------------------*)
+(* A layout is a sequence of fields [n |-> name, w |-> width in bytes], laid out back to back (the on-disk  *)
+(* formats modelled here are packed and naturally aligned by construction).  A structure value is a record   *)
+(* [name |-> digits].                                                                                         *)
+F(n, w) == [n |-> n, w |-> w]
+RECURSIVE OffsetOf(_, _)
+OffsetOf(L, k) == IF k = 1 THEN 0 ELSE OffsetOf(L, k - 1) + L[k - 1].w     \* offset of the k-th field
+SizeOf(L)  == OffsetOf(L, Len(L) + 1)
+Names(L)   == {L[k].n : k \in DOMAIN L}
+RECURSIVE PackFrom(_, _, _, _)
+PackFrom(L, rec, ord, k) == IF k > Len(L) THEN <<>> ELSE Put(Widen(rec[L[k].n], L[k].w), ord) \o PackFrom(L, rec, ord, k + 1)
+Pack(L, rec, ord) == PackFrom(L, rec, ord, 1)
+\* the record [field name |-> digits] read at offset off (built explicitly with :> and @@ so that TLC holds
+\* an evaluated record, not a function it re-evaluates on every field access)
+RECURSIVE UnpackFrom(_, _, _, _, _)
+UnpackFrom(L, b, off, ord, k) ==
+  IF k = Len(L) THEN L[k].n :> GetZ(b, off, L[k].w, ord)
+  ELSE (L[k].n :> GetZ(b, off, L[k].w, ord)) @@ UnpackFrom(L, b, off + L[k].w, ord, k + 1)
+Unpack(L, b, off, ord) == UnpackFrom(L, b, off, ord, 1)
+
+
+(* ---- building a file from positioned chunks ---------------------------------*)
+(* chunks: sequence of <<position, bytes>>, pairwise disjoint; the space between them is filled with a      *)
+(* position-dependent pseudo-random background (so that a reader using a wrong offset reads wrong values).  *)
+RECURSIVE SetToSeq(_)
+SetToSeq(S) == IF S = {} THEN <<>> ELSE LET m == CHOOSE x \in S : \A y \in S : x <= y IN <<m>> \o SetToSeq(S \ {m})
+Fill(seed, i) == ((((i % 4093) * 89 + seed) * 57) \div 8 + i) % 256      \* background byte at offset i
+
+\* the file: the non-empty chunks in position order, the space between them filled with background bytes
+RECURSIVE SortChunks(_)
+SortChunks(S) == IF S = {} THEN <<>>
+                 ELSE LET m == CHOOSE c \in S : \A d \in S : c[1] <= d[1] IN <<m>> \o SortChunks(S \ {m})
+FillRange(seed, a, z) == Tup([i \in 1..(z - a) |-> Fill(seed, a + i - 1)])       \* background bytes of offsets a..z-1
+RECURSIVE Lay(_, _, _, _, _)
+Lay(C, k, cur, seed, size) ==
+  IF k > Len(C) THEN FillRange(seed, cur, size)
+  ELSE FillRange(seed, cur, C[k][1]) \o C[k][2] \o Lay(C, k + 1, C[k][1] + Len(C[k][2]), seed, size)
+LayOut(C, seed, size) == Lay(SortChunks({C[k] : k \in {j \in DOMAIN C : Len(C[j][2]) > 0}}), 1, 0, seed, size)
+ChunksDisjoint(C, size) ==
+  /\ \A k \in DOMAIN C : C[k][1] >= 0 /\ C[k][1] + Len(C[k][2]) <= size
+  /\ \A k, j \in DOMAIN C : k < j /\ Len(C[k][2]) > 0 /\ Len(C[j][2]) > 0
+                            => (C[k][1] + Len(C[k][2]) <= C[j][1] \/ C[j][1] + Len(C[j][2]) <= C[k][1])
 
 (* ---- a small deterministic pseudo-random stream (for generator configs) --*)
 LcgNext(x) == (x * 75 + 74) % 65537                                 \* 16-bit Lehmer generator, fits 32-bit ints
